@@ -71,6 +71,17 @@ def tested_index_rule(rep, f, d):
         lhs = P(ev["lhs"]) if k == "write" else ev.get("var")
         rhs = ev.get("rhs") if k == "write" else ev.get("init")
         op = ev.get("op", "=") if k == "write" else "="
+        # the test result travels: 'r = true' on a path where the current test variable is known true (a helper returning
+        # its verdict), and plain copies 'u = r'
+        if op == "=" and rhs is not None and not isinstance(st, tuple):
+            tv_ = [v for tag, v in st if tag == "?test"]
+            r0 = strip(rhs)
+            if tv_ and isinstance(r0, dict) and r0.get("k") == "lit" and r0.get("v") is True and (tv_[0], True) in (ff.before.get(pos) or frozenset()):
+                return frozenset(x for x in st if x[0] != "?test") | frozenset([("?test", lhs)])
+            if tv_ and isinstance(r0, dict) and r0.get("k") == "var" and r0.get("name") == tv_[0]:
+                return frozenset(x for x in st if x[0] != "?test") | frozenset([("?test", lhs)])
+        if isinstance(st, tuple) and op == "=" and rhs is not None and isinstance(strip(rhs), dict) and strip(rhs).get("k") == "var" and strip(rhs).get("name") == st[1]:
+            return ("TOP", lhs)
         if op == "=" and rhs is not None and is_false(rhs):
             # 'use = false': the invariant "use => storage == accepted index + offset" holds vacuously
             return ("TOP", lhs)
@@ -108,8 +119,8 @@ def tested_index_rule(rep, f, d):
         if isinstance(b, tuple):
             return a if ("?test", b[1]) in a else frozenset()
         return a & b
-    before, _, _ = forward(f, frozenset(), tr, None, join, eh=False)
     ff = FactFlow(f, eh=False)
+    before, _, _ = forward(f, frozenset(), tr, None, join, eh=False)
 
     def accepted(e, pos):
         """Is expression e, evaluated at pos, an individually tested index?  Returns a reason or None."""
